@@ -130,6 +130,17 @@ PROPS = {
         rule=DET_RULE, trusted=DET_TRUSTED,
         assumptions=['LowerLaw: new < bg -> float32(new) - w < float32(bg), true for the non-negative weights that occur', 'the float64 mean is within one count of the exact mean (validated by the monitor, not proved)', 'the clause "background and threshold stored with a recording are those at the trigger" is covered by the e2e stream'],
     ),
+    'C10': dict(
+        lean=['Props.FactsWiring'],
+        streams=['fs'],
+        project={'fs': r'^< (?!sys write)'},
+        rule='op sequences of the real motion, test and continuous CPTVFileRecorders (start / write n frames / stop / discard) run under strace; every '
+             'system call is a crash point at which the directory model is checked; each case ends with a simulated crash (open recordings abandoned), '
+             'decoding of every finished file with the standard reader and the real start-up clean-up; non-trivial = at least one rename; distinct by op text',
+        trusted=['strace -f -y report of openat/write/close/renameat/unlinkat; process kill only (no power-loss claim)',
+                 'overlay harness injected into package main of cmd/thermal-recorder (init() hijack under VERIF_HARNESS)'],
+        assumptions=['time stamps of recordings in one directory are pairwise distinct (enforced by the F9 fix)', 'constant-recordings/ is not the output directory proper'],
+    ),
 }
 
 NOT_APPLICABLE = {}
@@ -199,6 +210,15 @@ MANIFEST_TEXT = {
         note=_COMMON_NOTE + 'floating point (float32 weights, float64 mean) is a parameter of the model: executed bit-exactly in the driver, opaque to the kernel.',
         technique='Lean 4 proof (ghost-state refinement / relational invariant over two runs, induction over the event list) + differential correspondence',
         design_ref='DESIGN.md 5/C15'),
+    'C10': dict(
+        text='Theorems over a model of the file-system calls of the file recorder (names T = .cptv.temp, S = .cptv.temp.tmp, F = .cptv; start/write/stop/discard '
+             'step lists as go-cptv really issues them): for every interleaving of recordings obeying the recorder protocol and EVERY prefix of the resulting call '
+             'sequence (= every crash point) every .cptv name is a complete recording never written in place; after start-up clean-up of any crash state only complete '
+             '.cptv files remain; the clean-up glob (regenerated from the source) matches every T and S name and no F name for all time stamps. The model is compared with '
+             'the real recorder under strace (every system call a crash point), finished files are decoded with the standard reader, the real clean-up runs on the crash state.',
+        note=_COMMON_NOTE + 'process kill only, no power-loss durability; the kernel rename/unlink atomicity and strace are trusted; gzip/CPTV codec validated by decoding, not proved.',
+        technique='Lean 4 proof (invariant over operation boundaries + all prefixes of the step lists; glob matcher lemmas) + differential correspondence under strace',
+        design_ref='DESIGN.md 5/C10'),
     'C19': dict(
         text='Theorems for every capacity >= 1 and every operation sequence: GetHistory/Oldest/CopyRecent of the FrameLoop model equal a '
              'three-line list specification (refinement through a ghost state, proved by induction over the operation list); the model is '
